@@ -31,12 +31,14 @@ for name in "${seeds[@]}"; do
   git checkout -q -- evidence/$prop.json 2>/dev/null   # evidence must describe /repo itself, not the mutated copy
   e=$(date +%s)
   nv=$(grep -c '^VIOLATION' out/seeded/$name.log)
-  first=$(grep '^VIOLATION' out/seeded/$name.log | head -1 | cut -c1-160)
+  nb=$(grep '^VIOLATION' out/seeded/$name.log | grep -c '/bounded_')
+  first=$(grep '^VIOLATION' out/seeded/$name.log | grep -v '/bounded_' | head -1 | sed 's/.*replay=[^ ]*\///' | cut -c1-110)
+  [ -z "$first" ] && first=$(grep '^VIOLATION' out/seeded/$name.log | head -1 | sed 's/.*replay=[^ ]*\///' | cut -c1-110)
   case $rc in
     0) st=missed;;
     1) if [ $nv -gt 0 ]; then st=caught; else st=broken-exit1-no-violation; fi;;
     *) st=broken-rc$rc;;
   esac
-  echo "$name $prop $st violations=$nv $((e-s))s $first"
+  echo "$name $prop $st violations=$nv bounded=$nb $((e-s))s $first"
   git -C /repo worktree remove --force $wt
 done
